@@ -36,7 +36,6 @@ def TT(t, tcases, tworkers=6, max_size=100):
 def GCC(name, **kw):
     """<name>_gcc: the same harness source, library and harness built by gcc / g++ -O2 (flavour gcc-asan)."""
     base = dict(TARGETS[name])
-    base.pop("portable_encoding", None)
     base.update(dict(name=name + "_gcc", flavour="gcc-asan"))
     base.update(kw)
     TARGETS[name + "_gcc"] = base
